@@ -33,6 +33,9 @@ for k, t, p, w in itertools.product([0, 1], [0, 1, 2], [0, 1, 2], [0, 1]):
     if t != 0 and p != 0: continue
     if k == 0 and p == 2: continue
     c09.append(job("H_C09_fail", conc=True, kind=k, timing=t, prefix=p, wfail=w))
+for e, p in itertools.product([1, 2], [0, 1, 2]):
+    c09.append(job("H_C09_fail", conc=True, kind=1, timing=0, prefix=p, wfail=0, eof=e))
+c09.append(job("H_C09_fail", conc=True, kind=0, timing=0, prefix=0, wfail=0, eof=1))
 P["C09"] = {
  "title": "client transport failure fails every call, none hangs",
  "bounds": "one call (unary or stream) per scenario; read failure after every prefix (0..full) of the call's response sequence; call in flight before / racing with (no ordering: every interleaving incl. the check-then-register window) / started after the failure; write side healthy or failing; all schedules",
@@ -47,11 +50,16 @@ GEN_ASSUME = ["transports honour their context (a blocked Read/Write returns onc
 # ---------------------------------------------------------------- C01
 P["C01"] = {
  "title": "unary call returns exactly the handler's reply to exactly the caller's request",
- "bounds": "real ClientConn + real Server.Serve over the shipped channel transport (by reference); N concurrent callers (quick 1..2, thorough 3) with symbolic 32-bit payloads incl. 0 (empty body); all interleavings of callers, mux read loop, server read loop, 8 workers (symmetry-reduced), writer",
+ "bounds": "real ClientConn + real Server.Serve over the shipped channel transport (by reference), through a Demux keyed by source, through a Proxy, and over a serialising (Marshal/Unmarshal) transport; N concurrent callers (1..2) with symbolic 32-bit payloads incl. 0 (empty body); all interleavings of callers, mux read loop, server read loop, 8 workers (symmetry-reduced), writer",
  "assumptions": GEN_ASSUME + ["codec model for testproto.Msg (injective; zero value <-> empty body); payload sizes beyond the 4-byte value are outside"],
- "quick": [job("H_C01_direct", conc=True, reach=["quiescent"], callers=1), job("H_C01_direct", conc=True, reach=["quiescent"], callers=2)],
+ "quick": [job("H_C01_direct", conc=True, reach=["quiescent"], callers=1), job("H_C01_direct", conc=True, reach=["quiescent"], callers=2),
+           job("H_C01_topo", conc=True, reach=["quiescent"], topo=1, callers=1), job("H_C01_topo", conc=True, reach=["quiescent"], topo=2, callers=1), job("H_C01_topo", conc=True, reach=["quiescent"], topo=3, callers=1),
+           job("H_C01_topo", conc=True, reach=["quiescent"], topo=3, callers=2), job("H_C01_topo", conc=True, reach=["quiescent"], topo=1, callers=2),
+           dict(job("H_C01_direct", conc=True, callers=2), race=True)],
  "thorough": [job("H_C01_direct", conc=True, reach=["quiescent"], callers=1), job("H_C01_direct", conc=True, reach=["quiescent"], callers=2),
-              job("H_C01_direct", conc=True, reach=["quiescent"], callers=2, tcap=1)],
+              job("H_C01_direct", conc=True, reach=["quiescent"], callers=2, tcap=1),
+              job("H_C01_topo", conc=True, reach=["quiescent"], topo=1, callers=2), job("H_C01_topo", conc=True, reach=["quiescent"], topo=2, callers=2), job("H_C01_topo", conc=True, reach=["quiescent"], topo=3, callers=2),
+              dict(job("H_C01_direct", conc=True, callers=2), race=True)],
 }
 
 # ---------------------------------------------------------------- C02
@@ -85,8 +93,9 @@ P["C04"] = {
  "title": "request metadata, response headers and trailers arrive intact",
  "bounds": "ToMetadata(ToKeyValue(md)) for K keys (text and -bin, every letter case), 1..V values per key, every value of length 0..vlen over all 256 byte values, all map iteration orders; repeated-MD join; header emission modes (SetHeader+first message, SendHeader, with trailer) end to end are exercised by the C06 scenarios",
  "assumptions": ["encoding/base64 executed from its own SSA (tables as SMT arrays)", "keys are ASCII letters and '-' (gRPC key alphabet)"],
- "quick": [job("H_C04_roundtrip", reach=["checked"], K=2, V=2, vlen=2), job("H_C04_roundtrip", reach=["checked"], K=1, V=1, vlen=3, allbin=1), job("H_C04_join", reach=["checked"])],
- "thorough": [job("H_C04_roundtrip", reach=["checked"], K=2, V=2, vlen=2), job("H_C04_roundtrip", reach=["checked"], K=1, V=1, vlen=3, allbin=1),
+ "quick": [job("H_C04_roundtrip", reach=["checked"], K=2, V=2, vlen=2), job("H_C04_roundtrip", reach=["checked"], K=1, V=1, vlen=3, allbin=1), job("H_C04_join", reach=["checked"]),
+           job("H_C04_request_md", reach=["checked"], deadline=0), job("H_C04_request_md", reach=["checked"], deadline=1)],
+ "thorough": [job("H_C04_request_md", reach=["checked"], deadline=0), job("H_C04_request_md", reach=["checked"], deadline=1), job("H_C04_roundtrip", reach=["checked"], K=2, V=2, vlen=2), job("H_C04_roundtrip", reach=["checked"], K=1, V=1, vlen=3, allbin=1),
               job("H_C04_roundtrip", reach=["checked"], K=3, V=1, vlen=3), job("H_C04_roundtrip", reach=["checked"], K=2, V=2, vlen=3, allbin=1), job("H_C04_join", reach=["checked"])],
 }
 
@@ -98,6 +107,7 @@ P["C05"] = {
  "quick": [job("H_C05_ids", conc=True, reach=["checked"]), job("H_C05_dispatch", reach=["to-a", "to-b", "dropped"]), job("H_C05_concurrent_ids", conc=True, reach=["checked"], n=2),
            job("H_C05_concurrent_ids", conc=True, reach=["checked"], n=3), job("H_C05_merge", conc=True, reach=["checked"], bodies=2),
            job("H_C05_concurrent_ids", conc=True, reach=["checked"], n=1, streams=1), job("H_C05_concurrent_ids", conc=True, reach=["checked"], n=2, streams=1),
+           job("H_C02_stream", conc=True, reach=["checked"], cp=0, hp=0, msgs=1), job("H_C01_direct", conc=True, reach=["quiescent"], callers=2),
            dict(job("H_C05_concurrent_ids", conc=True, n=1, streams=1), race=True), dict(job("H_C05_concurrent_ids", conc=True, n=2, streams=0), race=True)],
  "thorough": [job("H_C05_ids", conc=True, reach=["checked"]), job("H_C05_dispatch", reach=["to-a", "to-b", "dropped"]), job("H_C05_concurrent_ids", conc=True, reach=["checked"], n=3),
            job("H_C05_merge", conc=True, reach=["checked"], bodies=3), job("H_C01_direct", conc=True, reach=["quiescent"], callers=2),
@@ -133,7 +143,7 @@ P["C07"] = {
 
 # ---------------------------------------------------------------- C10
 def c10(**kw): return job("H_C10_end", conc=True, reach=["checked"], **kw)
-c10q = [c10(u=1, s=0, fault=f) for f in (0, 1, 2)] + [c10(u=0, s=1, fault=f, hmode=h) for f in (0, 2) for h in (0, 1, 2)] + [c10(u=0, s=1, fault=1, hmode=2), c10(u=1, s=1, fault=0, hmode=0)]
+c10q = [c10(u=1, s=0, fault=f) for f in (0, 1, 2)] + [c10(u=0, s=1, fault=f, hmode=h) for f in (0, 2) for h in (0, 1, 2)] + [c10(u=0, s=1, fault=1, hmode=2), c10(u=1, s=1, fault=0, hmode=0)] + [c10(u=0, s=1, fault=f, hmode=1, rst=1) for f in (0, 2)]
 P["C10"] = {
  "title": "server connections end cleanly: Serve returns, handlers cancelled, no leaks",
  "bounds": "u unary + s streaming cooperative handlers in flight (u,s <= 1 quick; thorough up to (2,1),(1,2)); fault = read error / write error / Server.Stop, racing with the request script and the handlers (every position); streaming handlers blocked in RecvMsg, on their context, or sending; all interleavings; goroutine census at quiescence",
@@ -193,7 +203,7 @@ P["C14"] = {
 # ---------------------------------------------------------------- C16
 c16q = [job("H_C16_forward", reach=["forwarded"], peers=p, ic=ic, next=nx, rec=rc, fill=fl) for p in (2, 3) for ic in (0, 1) for nx in (-1, 0, 1, 2) for rc in (0, 2) for fl in (0, 15)] + \
        [job("H_C16_forward", reach=["rejected"], peers=2, ic=2), job("H_C16_forward", peers=2, ic=0, fill=16)] + \
-       [job("H_C17_conc", conc=True, reach=["checked"], scenario=2, n=3), job("H_C17_conc", conc=True, reach=["checked"], scenario=1, n=1)]
+       [job("H_C17_conc", conc=True, reach=["checked"], scenario=2, n=3), job("H_C17_conc", conc=True, reach=["checked"], scenario=1, n=1), job("H_C17_conc", conc=True, reach=["checked"], scenario=5)]
 P["C16"] = {
  "title": "a proxy delivers each accepted envelope once, in order, to the right peer",
  "bounds": "one forwarding step from a proxy state with 2..3 attached peers and symbolic queue fill 0/15/16 of 16, for an accepted envelope with symbolic destination / interceptor rewrite / return route of 0..2 hops (nil and empty) / route record of 0..2 entries, symbolic id and payload; per-pair ordering with a stuck third peer (3 envelopes, all interleavings)",
@@ -202,7 +212,7 @@ P["C16"] = {
 }
 
 # ---------------------------------------------------------------- C17
-c17q = [job("H_C17_reject", reach=["rejected"], kind=k) for k in (0, 1, 2)] + [job("H_C17_reject", kind=k, unnamed=1) for k in (0, 1, 2)] + [job("H_C17_conc", conc=True, reach=["checked"], scenario=s, n=n) for s, n in ((0, 1), (1, 1), (2, 2), (3, 1), (4, 2))]
+c17q = [job("H_C17_reject", reach=["rejected"], kind=k) for k in (0, 1, 2)] + [job("H_C17_reject", kind=k, unnamed=1) for k in (0, 1, 2)] + [job("H_C17_conc", conc=True, reach=["checked"], scenario=s, n=n) for s, n in ((0, 1), (1, 1), (2, 2), (3, 1), (4, 2), (5, 1))]
 P["C17"] = {
  "title": "a proxy rejects spoofed sources, isolates bad peers and shuts down cleanly",
  "bounds": "forwardRpc for a missing header / every 2-byte claimed source / empty source; scenarios under all interleavings: context cancelled at any point during traffic (goroutine census), re-attachment under the same name racing with the old connection's failure, stuck writer, failing reader, unreachable destination (dial error); <= 2 envelopes per pair (thorough 3)",
@@ -213,7 +223,7 @@ P["C17"] = {
 
 # ---------------------------------------------------------------- C18
 def c18(**kw): return job("H_C18_demux", conc=True, reach=["checked"], **kw)
-c18q = [c18(K=2, L=3, W=1), c18(K=2, L=2, W=1, cancelKey=1), c18(K=2, L=2, W=1, stop=1), c18(K=1, L=2, W=0, stop=1, slow=1), c18(K=2, L=2, W=1, cancelKey=1, stop=1), job("H_C18_cancel_pending", conc=True, reach=["checked"])]
+c18q = [c18(K=2, L=3, W=1), c18(K=2, L=2, W=1, cancelKey=1), c18(K=2, L=2, W=1, stop=1), c18(K=1, L=2, W=0, stop=1, slow=1), c18(K=2, L=2, W=1, cancelKey=1, stop=1), job("H_C18_cancel_pending", conc=True, reach=["checked"]), job("H_C18_reuse_after_cancel", conc=True, reach=["checked"], twice=0), job("H_C18_reuse_after_cancel", conc=True, reach=["checked"], twice=1)]
 P["C18"] = {
  "title": "a demultiplexer gives each key its own ordered connection and shares the writer",
  "bounds": "L envelopes (3 quick / 4 thorough) over K keys (2 / 3) in every key assignment, consumers per logical connection reading and writing W envelopes each; Cancel(key) and Stop() at any point, concurrent with the run loop, readers and writers; slow consumers; all interleavings",
